@@ -19,6 +19,10 @@
    (7 2 <unix> "user" (<nonce> ...) <sha> <cfg> <legacy?>)    model client against the reference server
      -> (<completed> (<ev> ...))        ev additionally (4 "line") = received
 
+   (7 4 <unix> "user" (<nonce> ...) <sha> <cfg> <kind>)       as (7 2 ...) for the repaired model with the keyring
+       kind ::= 0 shared_keyring | 1 other_keyring (context file without the id) | 2 no_keyring (nothing can be looked up)
+     -> (<completed> (<ev> ...) <gave_up>)
+
    (7 3 <unix> "user" <keyring> (<nonce> ...) <sha> ("read" ...))   the client model on BYTES: the reads are
        given to Model/Framing.v's dataReceived with the ClientAuthenticator model as its authenticator
      -> ((<out> ...) <number of Line callbacks> <leftover: () closed | ("bytes")>)                     *)
@@ -148,6 +152,16 @@ Definition op (a : list sexp) : sexp :=
           let y := handshake user (sha_in sh) h c unix 60 in
           SList [sbool (completed y); SList (map sev (handshake_log user (sha_in sh) h c unix 60))]
       | _, _, _, _, _ => bad
+      end
+  | [SNum 4; u; SBytes user; SList ns; SList sh; c; SNum kind] =>
+      match as_bool u, map_opt as_bytes ns, map_opt pair_of sh, cfg_in c with
+      | Some unix, Some ns, Some sh, Some c =>
+          let k := if kind =? 1 then other_keyring else if kind =? 2 then no_keyring else shared_keyring in
+          let h := handle user k (nonce_in ns) (sha_in sh) in
+          let y := handshake user (sha_in sh) h c unix 60 in
+          SList [sbool (completed y); SList (map sev (handshake_log user (sha_in sh) h c unix 60));
+                 sbool (gave_up y)]
+      | _, _, _, _ => bad
       end
   | [SNum 3; u; SBytes user; SList k; SList ns; SList sh; SList rs] =>
       match as_bool u, map_opt file_of k, map_opt as_bytes ns, map_opt pair_of sh, map_opt as_bytes rs with
